@@ -5,3 +5,10 @@ claim("C03",
       "Trusted: CPython, CrossHair path bookkeeping, z3, the 25-line reference least-fixed-point evaluator (validated "
       "against tests/test_forest.py expectations at every run).",
       "CrossHair symbolic execution (pattern T: symbolic shifts) + z3", "DESIGN.md 2/C03")
+claim("C06",
+      "Bounded symbolic execution of the real EquivalenceDB over operation histories: the kinds of a history form the query "
+      "group, all label arguments are solver variables; after every cycle detection the answers for all label pairs are "
+      "compared with mutual reachability. CrossHair/z3 prove that no label vector inside the bound is left unexplored "
+      "(cross-checked by a native tally of the vectors run).",
+      "Trusted: CPython, CrossHair path bookkeeping (+tally cross-check), z3, Floyd-Warshall reference (validated against DFS).",
+      "CrossHair symbolic execution (pattern D: solver-enumerated label vectors) + z3", "DESIGN.md 2/C06")
